@@ -38,6 +38,10 @@ RULE = (
     "three dim namings; projections: axis-aligned affine incl. reflections, shear/rotation, separable monotone non-linear, polar / sinusoidal; "
     "Memory layouts (stream layouts): the same logical query / data / grid arrays as C, Fortran, transposed views, strided and negative-stride views, "
     "read-only, 3-D, pandas Series and with easting and northing in different layouts - judged element-wise by the oracle and against the C-ordered copy. "
+    "Call histories (stream twins): data set A, a twin B of equal size with bit-identical per-coordinate mean and std (point-reflected, mirrored, re-paired "
+    "dyadic lattices) or identical bounding box but a different hull, then A again - fresh objects and the same ndarrays modified in place, array and grid "
+    "forms, identical queries; twin grids with mirrored hole patterns for project_grid. Constructions (stream constructions): the same (northing, easting) "
+    "variable in Datasets / DataArrays put together in nine / six different ways (coordinates declared in either order, to_dataset, non-index coordinates first). "
     "methods nearest/linear/cubic and gridder objects, both antialias settings, region/shape/spacing/dims kwargs; projected grids keep "
     "cell_aspect*(1+offset/extent) <= 1e4 except in the always-on stream pg_anisotropic (>= 1e5, known finding F10). Non-trivial = at least one "
     "query strictly inside and one strictly outside (mask) or a non-identity projection with a non-square grid (project_grid); distinct = "
@@ -81,6 +85,21 @@ for _tier, _n in (("quick", 60), ("thorough", 1200)):
     FLOORS[_tier].update({"eval:mask_layout_invariance": 1300 * _n, "eval:pg_layout_invariance": 110 * _n,
                           "mask:query_layout:2d_F|2d_F": int(1.6 * _n), "mask:query_layout:2d_F|2d_C": int(0.4 * _n), "mask:query_layout:3d_F|3d_F": int(0.4 * _n),
                           "mask:data_layout:2d_F|2d_C": int(0.8 * _n), "mask:grid_values_layout:2d_F": int(0.8 * _n), "pg:grid_values_layout:2d_F": int(0.4 * _n)})
+CONSTRUCTION_CLASSES = (
+    ["mask_grid:" + k for k in ("canonical", "coords_first_easting_first", "coords_first_northing_first", "dataarray_to_dataset_easting_first",
+                                "dataarray_to_dataset_northing_first", "non_index_coordinates_declared_first", "easting_declared_first_everywhere",
+                                "assigned_coords_afterwards", "second_variable_same_dims")]
+    + ["project_grid:" + k for k in ("canonical", "coords_easting_first", "from_dataset_easting_first", "to_dataset_and_back",
+                                     "non_index_coordinates_declared_first", "coords_as_list_of_pairs")]
+)
+for _tier, _twins, _cons in (("quick", 60, 40), ("thorough", 1200, 800)):
+    FLOORS[_tier].update({"twins:" + k: int(0.4 * _twins / 5) for k in ("point_reflected", "mirrored_about_mean", "bbox_mirrored", "re_paired", "same_bbox")})
+    FLOORS[_tier].update({"twins:history:" + k: int(0.4 * _twins) for k in ("array_fresh_objects", "array_in_place", "grid_form", "grid_form_in_place",
+                                                                          "pg_fresh_objects", "pg_in_place")})
+    FLOORS[_tier].update({"twins:stats_bit_identical": int(0.3 * _twins), "twins:pg_stats_bit_identical": int(0.25 * _twins), "twins:pg_nan_patterns_differ": int(0.7 * _twins),
+                          "eval:twins_masks_differ": 100 * _twins, "eval:twins_history_free": 850 * _twins, "eval:twins_pg_history_free": 50 * _twins,
+                          "eval:construction_invariance": 470 * _cons, "constructions:square": int(0.12 * _cons), "constructions:non_square": int(0.25 * _cons)})
+    FLOORS[_tier].update({"construction:" + k: int(0.4 * _cons) for k in CONSTRUCTION_CLASSES})
 JOBS = {"quick": 1, "thorough": 8}
 CASE_TIMEOUT_S = 300
 
@@ -89,9 +108,9 @@ _STATE = {}
 
 def plan(tier):
     if tier == "quick":
-        out = collections.OrderedDict(cloud=300, lattice=150, thin=200, affine=120, forms=120, layouts=60, pg_affine=250, pg_general=350)
+        out = collections.OrderedDict(cloud=300, lattice=150, thin=200, affine=120, forms=120, layouts=60, twins=60, constructions=40, pg_affine=250, pg_general=350)
     else:
-        out = collections.OrderedDict(cloud=6000, lattice=3000, thin=4000, affine=2400, forms=2400, layouts=1200, pg_affine=5000, pg_general=7000)
+        out = collections.OrderedDict(cloud=6000, lattice=3000, thin=4000, affine=2400, forms=2400, layouts=1200, twins=1200, constructions=800, pg_affine=5000, pg_general=7000)
     # two small always-on streams reproduce the known findings F10 / F11 (known_findings.json) in every run: case 0 of each is a fixed
     # witness, the rest are seeded inputs of the same class. Everything they trigger must match the finding's classifier below,
     # anything else is reported as a plain violation.
@@ -936,6 +955,10 @@ def run_case(run, tap, stream, index, rng):  # noqa: U100
                              "outside_nodes": int(outside.sum()), "either_way": int(either.sum())})
     elif stream == "layouts":
         _layouts_case(run, verde, make_hull, index, rng)
+    elif stream == "twins":
+        _twins_case(run, verde, make_hull, index, rng)
+    elif stream == "constructions":
+        _constructions_case(run, verde, make_hull, index, rng)
     elif stream == "thin_vertices":
         # known finding F11: data points of a thin rotated cloud queried against their own hull
         if index == 0:
@@ -1222,6 +1245,297 @@ def _layouts_case(run, verde, make_hull, index, rng):
                                "result_c_order": b_, "result": a_}, key="pg_layout:" + label)
     run.sample("layouts", {"query_shape": [rows, cols], "data_shape": list(d_e.shape), "classes": sorted(ve) + ["mixed", "3d", "series", "grid forms", "project_grid"],
                            "monitor": "mask[i, j] decides (easting[i, j], northing[i, j]) in every memory layout; compared with the exact oracle and with the C-ordered copy"})
+
+
+# ----------------------------------------------------------------------
+# call histories with twin inputs
+# ----------------------------------------------------------------------
+TWIN_KINDS = ["point_reflected", "mirrored_about_mean", "bbox_mirrored", "re_paired", "same_bbox"]
+PG_TWIN_GRIDS = [(3, 6, 1), (7, 10, 2), (4, 11, 3), (7, 12, 4), (6, 6, 4), (10, 14, 3)]  # rows, cols, corner size: valid cells = power of two
+
+
+def _same_stats(a, b):
+    """Bit-identical size, mean and standard deviation per coordinate, computed the way array code would (ndarray.mean / .std)?"""
+    return all(p.size == q.size and p.mean() == q.mean() and p.std() == q.std() for p, q in zip(a, b))
+
+
+def _twin_clouds(rng, kind, make_hull):
+    """(A, B): dyadic lattice clouds of equal size whose summary statistics coincide (see TWIN_KINDS) but whose hulls differ."""
+    for _ in range(60):
+        n = int(rng.choice([8, 16, 32]))
+        size = int(rng.integers(5, 12))
+        if kind == "bbox_mirrored":  # easting multiset symmetric about the middle of the bounding box
+            half = rng.integers(0, size + 1, n // 2)
+            half[0] = 0
+            lx = np.concatenate([half, size - half]).astype("float64")
+            ly = rng.integers(0, size + 1, n).astype("float64")
+        else:
+            lx = rng.integers(0, size + 1, n).astype("float64")
+            ly = rng.integers(0, size + 1, n).astype("float64")
+        if len(set(zip(lx, ly))) < n:
+            continue
+        if kind == "point_reflected":
+            bx, by = 2 * lx.mean() - lx, 2 * ly.mean() - ly
+        elif kind == "mirrored_about_mean":
+            bx, by = 2 * lx.mean() - lx, ly.copy()
+        elif kind == "bbox_mirrored":
+            bx, by = lx.min() + lx.max() - lx, ly.copy()
+        elif kind == "re_paired":
+            bx, by = lx.copy(), ly[rng.permutation(n)]
+        else:  # same bounding box and size, unrelated interior
+            bx = rng.integers(0, size + 1, n).astype("float64")
+            by = rng.integers(0, size + 1, n).astype("float64")
+            bx[:2], by[2:4] = [lx.min(), lx.max()], [ly.min(), ly.max()]
+            if (bx.min(), bx.max(), by.min(), by.max()) != (lx.min(), lx.max(), ly.min(), ly.max()) or len(set(zip(bx, by))) < n:
+                continue
+        sx, sy = 2.0 ** int(rng.integers(-6, 12)), 2.0 ** int(rng.integers(-6, 12))
+        ox, oy = float(int(rng.integers(-300, 300))) * sx, float(int(rng.integers(-300, 300))) * sy
+        a = (lx * sx + ox, ly * sy + oy)
+        b = (bx * sx + ox, by * sy + oy)
+        ha, hb = make_hull(*a), make_hull(*b)
+        if ha.degenerate or hb.degenerate or sorted(ha.vertices) == sorted(hb.vertices):
+            continue
+        return a, b, ha, hb, (size, sx, sy, ox, oy)
+    return None
+
+
+def _twins_case(run, verde, make_hull, index, rng):
+    """
+    A, its twin B, then A again in one process - every return is judged by the mask monitor against the data of THAT call; here the
+    masks of A and B (identical queries) must differ where the hulls differ and the second A must repeat the first.
+    """
+    import xarray as xr
+
+    kind = TWIN_KINDS[index % len(TWIN_KINDS)]
+    made = _twin_clouds(rng, kind, make_hull)
+    if made is None:
+        run.count("twins:generation_failed")
+        return
+    a, b, ha, hb, (size, sx, sy, ox, oy) = made
+    identical = _same_stats(a, b)
+    run.count("twins:%s" % kind)
+    run.count("twins:stats_bit_identical" if identical else "twins:stats_differ_(%s)" % kind)
+    gx = np.arange(-1, size + 1.5, 0.5) * sx + ox
+    gy = np.arange(-1, size + 2.0, 0.5) * sy + oy
+    e2, n2 = np.meshgrid(gx, gy)
+    ia, oa, _, _, _ = ha.classify(e2.ravel(), n2.ravel())
+    ib, ob, _, _, _ = hb.classify(e2.ravel(), n2.ravel())
+    must_differ = (ia & ob) | (oa & ib)
+    decided_a = ia | oa
+
+    def judge(label, first, twin, again):
+        if first is None or twin is None or again is None:
+            run.count("twins:refused_%s" % label)
+            return
+        first, twin, again = (np.asarray(m).ravel() for m in (first, twin, again))
+        run.evaluated("twins_masks_differ", int(must_differ.sum()))
+        run.evaluated("twins_history_free", int(decided_a.sum()))
+        stale = must_differ & (first == twin)
+        changed = decided_a & (first != again)
+        if stale.any() or changed.any():
+            run.violation("twins_history", "%s, %s twins (statistics bit-identical: %s): %d query points where the hulls differ get the same answer for both "
+                          "data sets, %d points answer differently when the first data set is given again" % (label, kind, identical, int(stale.sum()), int(changed.sum())),
+                          {"kind": kind, "form": label, "data_a": list(a), "data_b": list(b), "query_easting": gx, "query_northing": gy,
+                           "mask_a": first, "mask_b": twin, "mask_a_again": again}, key="twins:%s:%s" % (label, kind))
+
+    def as_mask(ds):
+        return None if ds is None else ~np.isnan(np.asarray(ds["scalars"].values))
+
+    # array form, fresh array objects per call (temporaries freed in between: id() values get reused)
+    seq = [_mask_call(run, verde, (d[0].copy(), d[1].copy()), coordinates=(e2, n2)) for d in (a, b, a)]
+    judge("array_fresh_objects", *seq)
+    run.count("twins:history:array_fresh_objects")
+    # array form, the SAME ndarray objects modified in place between the calls
+    bufx, bufy = a[0].copy(), a[1].copy()
+    seq = []
+    for d in (a, b, a):
+        bufx[...] = d[0]
+        bufy[...] = d[1]
+        seq.append(_mask_call(run, verde, (bufx, bufy), coordinates=(e2, n2)))
+    judge("array_in_place", *seq)
+    run.count("twins:history:array_in_place")
+    # grid form (same Dataset object for the three calls)
+    ds = _dataset(rng, gx, gy)
+    judge("grid_form", *[as_mask(_mask_call(run, verde, (d[0].copy(), d[1].copy()), grid=ds)) for d in (a, b, a)])
+    run.count("twins:history:grid_form")
+    bufx[...] = a[0]
+    bufy[...] = a[1]
+    seq = []
+    for d in (a, b, a):
+        bufx[...] = d[0]
+        bufy[...] = d[1]
+        seq.append(as_mask(_mask_call(run, verde, (bufx, bufy), grid=ds)))
+    judge("grid_form_in_place", *seq)
+    run.count("twins:history:grid_form_in_place")
+
+    # ---- project_grid: twin grids (same coordinates, same number of valid cells, mirrored hole pattern) -------------------------
+    rows, cols, corner = PG_TWIN_GRIDS[(index // len(TWIN_KINDS)) % len(PG_TWIN_GRIDS)]
+    east = np.arange(cols, dtype="float64") * 2.0 ** int(rng.integers(-3, 8)) + float(int(rng.integers(-50, 50)))
+    north = np.arange(rows, dtype="float64") * 2.0 ** int(rng.integers(-3, 8)) + float(int(rng.integers(-50, 50)))
+    u, v = np.meshgrid(np.arange(cols), np.arange(rows))
+    field = gen.smooth_field(rng, u.astype("float64"), v.astype("float64"), amplitude=float(10 ** rng.uniform(-1, 3)))
+    holes_a = (u + v < corner) | ((cols - 1 - u) + (rows - 1 - v) < corner)
+    holes_b = ((cols - 1 - u) + v < corner) | (u + (rows - 1 - v) < corner)
+    va, vb = np.where(holes_a, np.nan, field), np.where(holes_b, np.nan, field)
+    if index % 2:
+        pa, pb, pc, pd = 2.0 ** int(rng.integers(-2, 4)) * rng.choice([-1.0, 1.0]), float(int(rng.integers(-20, 20))), 2.0 ** int(rng.integers(-2, 4)), float(int(rng.integers(-20, 20)))
+        proj = Projection("axis_affine_dyadic", lambda x, y: (pa * x + pb, pc * y + pd), (pa, pb, pc, pd), axis_affine=(pa, pb, pc, pd))
+    else:
+        proj = general_projection(rng, east, north)
+    method = ["linear", "nearest", "cubic"][index % 3]
+    antialias = bool((index // 3) % 2)
+    dims = [("northing", "easting"), ("latitude", "longitude")][index % 2]
+    stats = _same_stats(_two(proj(*[c[~holes_a] for c in np.meshgrid(east, north)])), _two(proj(*[c[~holes_b] for c in np.meshgrid(east, north)])))
+    run.count("twins:pg_stats_bit_identical" if stats else "twins:pg_stats_differ_(%s)" % proj.label)
+
+    def project(da):
+        try:
+            with warnings.catch_warnings():
+                warnings.simplefilter("ignore")
+                return np.asarray(verde.project_grid(da, proj, method=method, antialias=antialias).values)
+        except _STATE["QhullError"]:
+            run.count("refused:project_grid_qhull (counted, not failed)")
+            return None
+
+    def build(values):
+        return xr.DataArray(values.copy(), coords={dims[0]: north, dims[1]: east}, dims=dims, name="twin")
+
+    def judge_pg(label, first, twin, again):
+        if first is None or twin is None or again is None:
+            return
+        run.evaluated("twins_pg_history_free", int(first.size))
+        same = first.shape == again.shape and bool(np.all((first == again) | (np.isnan(first) & np.isnan(again))))
+        if not same:
+            run.violation("twins_history", "project_grid (%s): the first grid projected again after its twin gives a different result" % label,
+                          {"form": label, "values_a": va, "values_b": vb, "easting": east, "northing": north, "projection": repr(proj), "method": method,
+                           "antialias": antialias, "first": first, "again": again}, key="twins:pg:" + label)
+        run.count("twins:pg_nan_patterns_differ" if not np.array_equal(np.isnan(first), np.isnan(twin)) else "twins:pg_nan_patterns_equal")
+
+    judge_pg("fresh_objects", *[project(build(vals)) for vals in (va, vb, va)])
+    run.count("twins:history:pg_fresh_objects")
+    da = build(va)
+    seq = []
+    for vals in (va, vb, va):
+        da.values[...] = vals
+        seq.append(project(da))
+    judge_pg("in_place", *seq)
+    run.count("twins:history:pg_in_place")
+    run.sample("twins", {"kind": kind, "data_a": [a[0][:16], a[1][:16]], "data_b": [b[0][:16], b[1][:16]], "statistics_bit_identical": identical,
+                         "query_points_that_must_differ": int(must_differ.sum()), "pg_grid": [rows, cols, corner], "pg_method": method, "pg_antialias": antialias,
+                         "monitor": "A, twin B, A again (fresh objects and the same ndarrays modified in place); every return judged against its own exact hull"})
+
+
+# ----------------------------------------------------------------------
+# the same grid built in different ways
+# ----------------------------------------------------------------------
+def _constructions_case(run, verde, make_hull, index, rng):
+    """The variable has dims (northing, easting) however the Dataset / DataArray was put together."""
+    import xarray as xr
+
+    n = int(rng.choice([6, 15, 40, 100]))
+    dx, dy = gen.cloud(rng, n)
+    hull = make_hull(dx, dy)
+    if hull.degenerate or hull.thin_ratio < 1e-2:
+        run.count("constructions:skipped_thin_cloud")
+        return
+    n_e = int(rng.integers(4, 16))
+    n_n = n_e if index % 3 == 0 else int(rng.integers(4, 16))
+    if index % 3 and n_n == n_e:
+        n_n += 2
+    run.count("constructions:%s" % ("square" if n_n == n_e else "non_square"))
+    e = np.linspace(dx.min() - 0.3 * np.ptp(dx), dx.max() + 0.2 * np.ptp(dx), n_e)
+    nn = np.linspace(dy.min() - 0.2 * np.ptp(dy), dy.max() + 0.3 * np.ptp(dy), n_n)
+    names = [("northing", "easting"), ("latitude", "longitude"), ("y", "x")][index % 3]
+    dn, de = names
+    vals = rng.normal(size=(n_n, n_e)) * 10 ** rng.uniform(-2, 3)
+    height = rng.normal(size=(n_n, n_e))
+    builds = collections.OrderedDict()
+    builds["canonical"] = lambda: xr.Dataset({"v": ((dn, de), vals.copy())}, coords={dn: nn, de: e})
+
+    def coords_first(order):
+        ds = xr.Dataset(coords={k: {dn: nn, de: e}[k] for k in order})
+        ds["v"] = ((dn, de), vals.copy())
+        return ds
+
+    builds["coords_first_easting_first"] = lambda: coords_first((de, dn))
+    builds["coords_first_northing_first"] = lambda: coords_first((dn, de))
+    builds["dataarray_to_dataset_easting_first"] = lambda: xr.DataArray(vals.copy(), coords={de: e, dn: nn}, dims=(dn, de), name="v").to_dataset()
+    builds["dataarray_to_dataset_northing_first"] = lambda: xr.DataArray(vals.copy(), coords=[(dn, nn), (de, e)], name="v").to_dataset()
+    builds["non_index_coordinates_declared_first"] = lambda: xr.Dataset(
+        {"v": ((dn, de), vals.copy())}, coords={"height": ((dn, de), height), "label": ((de,), np.arange(n_e) * 10.0), de: e, dn: nn})
+    builds["easting_declared_first_everywhere"] = lambda: xr.Dataset({"v": ((dn, de), vals.copy())}, coords={de: e, dn: nn})
+    builds["assigned_coords_afterwards"] = lambda: xr.Dataset({"v": ((dn, de), vals.copy())}).assign_coords({de: e, dn: nn})
+    builds["second_variable_same_dims"] = lambda: xr.Dataset({"v": ((dn, de), vals.copy()), "w": ((dn, de), height)}, coords={de: e, dn: nn})
+    e2, n2 = np.meshgrid(e, nn)
+    inside, outside, either, depth, margin = hull.classify(e2.ravel(), n2.ravel())
+    decided = (inside | outside).reshape(n_n, n_e)
+    want = None
+    for label, make in builds.items():
+        ds = make()
+        res = _mask_call(run, verde, (dx, dy), grid=ds)
+        run.count("construction:mask_grid:%s" % label)
+        if res is None:
+            continue
+        got = np.asarray(res["v"].values)
+        if label == "canonical":
+            want = got
+            continue
+        if want is None:
+            continue
+        run.evaluated("construction_invariance", int(decided.sum()))
+        ok = tuple(res["v"].dims) == (dn, de) and got.shape == want.shape
+        ok = ok and bool(np.all(~decided | (got == want) | (np.isnan(got) & np.isnan(want))))
+        if not ok:
+            run.violation("construction_invariance", "convexhull_mask(grid=...) depends on how the Dataset was built (%s): dims %r shape %r, %s nodes differ from the "
+                          "canonical construction" % (label, tuple(res["v"].dims), got.shape,
+                                                      int((decided & ~((got == want) | (np.isnan(got) & np.isnan(want)))).sum()) if got.shape == want.shape else "all"),
+                          {"construction": label, "data": [dx, dy], "easting": e, "northing": nn, "values": vals, "masked_canonical": want, "masked": got},
+                          key="construction:mask:" + label)
+    # project_grid: the same DataArray obtained in different ways
+    proj = axis_affine(rng, e, nn) if index % 2 else general_projection(rng, e, nn)
+    method = ["linear", "nearest", "cubic"][index % 3]
+    antialias = bool(index % 2)
+    pvals = vals.copy()
+    pvals[rng.random(pvals.shape) < 0.1] = np.nan
+    arrays = collections.OrderedDict()
+    arrays["canonical"] = lambda: xr.DataArray(pvals.copy(), coords={dn: nn, de: e}, dims=(dn, de), name="v")
+    arrays["coords_easting_first"] = lambda: xr.DataArray(pvals.copy(), coords={de: e, dn: nn}, dims=(dn, de), name="v")
+
+    def from_dataset(order):
+        ds = xr.Dataset(coords={k: {dn: nn, de: e}[k] for k in order})
+        ds["v"] = ((dn, de), pvals.copy())
+        return ds["v"]
+
+    arrays["from_dataset_easting_first"] = lambda: from_dataset((de, dn))
+    arrays["to_dataset_and_back"] = lambda: xr.DataArray(pvals.copy(), coords={de: e, dn: nn}, dims=(dn, de), name="v").to_dataset()["v"]
+    arrays["non_index_coordinates_declared_first"] = lambda: xr.DataArray(
+        pvals.copy(), coords={"height": ((dn, de), height), de: e, dn: nn}, dims=(dn, de), name="v")  # (a 1-D or scalar non-index coordinate makes
+    # grid_to_table raise "All arrays must be of the same length" - a C18 matter, reported, not generated here)
+    arrays["coords_as_list_of_pairs"] = lambda: xr.DataArray(pvals.copy(), coords=[(dn, nn), (de, e)], name="v")
+    ref_out = None
+    for label, make in arrays.items():
+        try:
+            with warnings.catch_warnings():
+                warnings.simplefilter("ignore")
+                out = verde.project_grid(make(), proj, method=method, antialias=antialias)
+        except _STATE["QhullError"]:
+            run.count("refused:project_grid_qhull (counted, not failed)")
+            continue
+        run.count("construction:project_grid:%s" % label)
+        if label == "canonical":
+            ref_out = out
+            continue
+        if ref_out is None:
+            continue
+        run.evaluated("construction_invariance", int(out.size))
+        a_, b_ = np.asarray(out.values), np.asarray(ref_out.values)
+        ok = out.dims == ref_out.dims and a_.shape == b_.shape and bool(np.all((a_ == b_) | (np.isnan(a_) & np.isnan(b_))))
+        ok = ok and all(np.array_equal(np.asarray(out.coords[d].values), np.asarray(ref_out.coords[d].values)) for d in ref_out.dims)
+        if not ok:
+            run.violation("construction_invariance", "project_grid depends on how the input DataArray was built (%s)" % label,
+                          {"construction": label, "values": pvals, "easting": e, "northing": nn, "projection": repr(proj), "method": method, "antialias": antialias,
+                           "result_canonical": b_, "result": a_}, key="construction:pg:" + label)
+    run.sample("constructions", {"grid_shape": [n_n, n_e], "dims": [dn, de], "classes": list(builds) + ["project_grid:" + k for k in arrays]})
 
 
 def finish(run, tap, shard):  # noqa: U100
